@@ -2090,14 +2090,16 @@ class VM:
                     regex_internal = sep._internal
                     capture_count = regex_internal._capture_count
                     parts = []
+                    # One matcher for all positions, so that it keeps polling
+                    matcher = regex_internal._create_vm()
                     if s == "":
-                        if regex_internal._create_vm().match(s, 0) is None:
+                        if matcher.match(s, 0) is None:
                             parts.append(s)
                     else:
                         piece_start = 0
                         pos = 0
                         while pos < len(s):
-                            result = regex_internal._create_vm().match(s, pos)
+                            result = matcher.match(s, pos)
                             match_end = (
                                 None if result is None else pos + len(result[0] or "")
                             )
@@ -2375,9 +2377,15 @@ class VM:
             start = to_integer(pattern.lastIndex)
             return max(0, start)
 
+        matchers = {}
+
         def attempt(regex_internal, pos, sticky):
             """One RegExpBuiltinExec step: sticky regexes match at pos only."""
-            vm_regex = regex_internal._create_vm()
+            # One matcher per regular expression for the whole call: a loop of many
+            # short attempts keeps polling the clock
+            vm_regex = matchers.get(id(regex_internal))
+            if vm_regex is None:
+                vm_regex = matchers[id(regex_internal)] = regex_internal._create_vm()
             if sticky:
                 return vm_regex.match(s, pos) if pos <= len(s) else None
             return vm_regex.search(s, pos)
